@@ -23,7 +23,7 @@ TRUSTED = [
 ]
 THEOREMS = ['moment_sym_psd', 'factor_closed_form', 'update_is_ema', 'factor_sym_psd', 'rank_mean', 'moment_union', 'unscale']
 NOTES = ('eval-mode inertness and off-step inertness are checked by the tie (histories contain eval passes and non-update steps); '
-         'they are not theorems of a machine model here (see C05).')
+         'as theorems of the control machine they are eval_inert / factors_change_only_on_update_steps in Properties/C05.v.')
 
 MODELS_EXACT = [
     ([('linear', 3, 4, 1), ('relu',), ('linear', 4, 2, 0)], [3]),
